@@ -943,7 +943,7 @@ fn main() {
     if std::env::var("NV_LOUD").is_err() {
         quiet_panics();
     }
-    let mut rep = Report::new("C13", "import graphs (files × raw #import lines × definitions, one root); bounded-exhaustive over ≤3 (quick) / ≤4 (thorough) files with ≤2 fragments and ≤4 import lines (one per ordered pair incl. self; *, N0, N1, N0+N1), each also with random decorations (respelled paths, repeated/split/permuted lines, repeated names, dangling files, missing names), plus random graphs of ≤8 files; non-trivial = at least two files reachable from the root (distinct by canonical JSON)");
+    let mut rep = Report::new("C13", "import graphs (files × raw #import lines × definitions, one root); bounded-exhaustive over ≤3 (quick) / ≤4 (thorough) files with ≤2 fragments and ≤4 import lines (one per ordered pair incl. self; *, N0, N1, N0+N1), each also with random decorations (respelled paths, repeated/split/permuted lines, repeated names, dangling files, missing names), plus random graphs of ≤8 files; CLI leg: ~200 (quick) / ~1700 (thorough) of these graphs as projects through `nitrogql-cli check generate` (skeleton × broken-line placement families over 2–3 documents, samples of the ≤3-file family and of the random graphs with broken lines sprinkled in); non-trivial = at least two files reachable from the root (distinct by canonical JSON)");
     let mut drv = Driver::spawn(&args.driver);
     let legacy = args.extra.get("legacy").map(|s| s == "1").unwrap_or(false);
     let cli = cli_leg::locate_cli(&args, &mut rep);
